@@ -69,6 +69,18 @@ def run(ctx, ck) -> None:
     if dups and isinstance(dups.node, ast.FunctionDef):
         for fs, _, _ in raise_paths(dups.node, 'ValueError'):
             dup_ok = dup_ok or any(f[0] == 'truth' and f[2] is True and 'Counter' in show(f[1]) and ("'gt'" in repr(f[1]) or "'ge'" in repr(f[1])) for f in fs)
+            # or: the set of the axes is smaller than their list
+            for f in fs:
+                pair = None
+                if f[0] == 'ne' and len(f[1]) == 2:
+                    pair = tuple(f[1])
+                elif f[0] in ('lt',) and len(f) == 3:
+                    pair = (f[1], f[2])
+                if pair and all(x[0] == 'call' and x[1] == ('var', 'len') and len(x[2]) == 1 for x in pair):
+                    a, b = pair[0][2][0], pair[1][2][0]
+                    for s_, l_ in ((a, b), (b, a)):
+                        if s_[0] == 'call' and s_[1] in (('var', 'set'), ('var', 'frozenset')) and len(s_[2]) == 1 and s_[2][0] == l_:
+                            dup_ok = True
     ck.expect('D1', dup_ok, dups.node if dups else bcast.node, 'duplicated destination axes (after normalisation) raise', 'duplicated axes are no longer detected', instance='duplicated axes')
 
     # ------------------------------------------------------------------ D2
